@@ -358,6 +358,30 @@ func c11Work(c *engine.Ctx) {
 			}
 		}
 	}
+	// DOCTYPE family: external identifiers and internal subsets whose quoted literals contain every character that
+	// means something outside a literal ('>', '[', ']', ']>', the other quote, comment and PI openers)
+	lits := []string{"b", "b>c", "d[1].dtd", "e]f", "g]>h", "[", "]", "[]>", "<!--", "<?", "k l"}
+	quote := func(l string, q string) string { return q + l + q }
+	var externals []string
+	externals = append(externals, "")
+	for _, l := range lits {
+		externals = append(externals, ` SYSTEM `+quote(l, `"`), ` SYSTEM `+quote(l, `'`), ` PUBLIC "p" `+quote(l, `"`), ` PUBLIC 'p[' `+quote(l, `'`))
+	}
+	externals = append(externals, ` SYSTEM "i'j"`, ` SYSTEM 'k"l'`)
+	subsets := []string{"", " []", "[]", " [ ]", " [<!-- it's \"x ] > [ --><!ELEMENT e (f)>]", "[<!--]>-->]", " [<?pi x?>]"}
+	for _, l := range lits {
+		subsets = append(subsets, ` [<!ENTITY b `+quote(l, `"`)+`>]`, `[<!ATTLIST e f CDATA `+quote(l, `'`)+`><!ELEMENT e (f)>]`, ` [<!ENTITY % p SYSTEM `+quote(l, `"`)+`> %p;]`)
+	}
+	for ei, ext := range externals {
+		for si, sub := range subsets {
+			if !c.Thorough() && ei > 0 && si > 3 && (ei+si)%4 != 0 {
+				continue
+			}
+			body := " a" + ext + sub
+			emit(xConcat(xSimple(xml.DOCTYPEToken, "<!DOCTYPE"+body+">", body), xStart("a", nil, [4]string{}, "/>")))
+			emit(xConcat(xSimple(xml.DOCTYPEToken, "<!DOCTYPE"+body+" >", body+" "), xSimple(xml.TextToken, "\n", "\n"), xStart("a", nil, [4]string{}, ">"), xEnd("a", "")))
+		}
+	}
 	// whitespace variants at every in-tag position × attribute combinations
 	wsv := []string{"", " ", "\n", "\r", "\t\r\n "}
 	ws0v := []string{" ", "\n", "\t", "\r", "\r\n", "  "}
